@@ -319,6 +319,18 @@ func runC18(r *mc.Run) {
 			v[0]++
 			o.Validation.TdQuoteBodyOptions.MinimumTeeTcbSvn = v
 		}},
+		{"minimum-tee-tcb-svn:earlier-component-lower,later-higher", func(p *world.QuoteParts, o *rtmr.ParseTdxCcelOpts) {
+			v := append([]byte(nil), cos[48:64]...)
+			v[0]--
+			v[2]++
+			o.Validation.TdQuoteBodyOptions.MinimumTeeTcbSvn = v
+		}},
+		{"minimum-tee-tcb-svn:component9-higher-only", func(p *world.QuoteParts, o *rtmr.ParseTdxCcelOpts) {
+			v := append([]byte(nil), cos[48:64]...)
+			v[1] = 0
+			v[9]++
+			o.Validation.TdQuoteBodyOptions.MinimumTeeTcbSvn = v
+		}},
 		{"expected-rtmr1", func(p *world.QuoteParts, o *rtmr.ParseTdxCcelOpts) {
 			o.Validation.TdQuoteBodyOptions.Rtmrs = [][]byte{nil, flip(cos[48+376:48+424], 2), nil, nil}
 		}},
